@@ -35,6 +35,8 @@ RECORD_CLASSES = {}      # class name -> (file, KRecord)
 GLOBAL_VALUES = {}       # name -> factory(ex) for module-level constants
 MODULE_ATTRS = {}        # (module, attr) -> factory(ex)
 EXTERNALS = {}           # dotted name -> contract qual
+OPAQUE_CLASSES = {'BindingStatement', 'BlockDeclaration', 'ImportStatement',
+                  'IncludeStatement'}
 VAL_METHOD_CONTRACTS = {}  # method name on an opaque object -> contract qual
 
 
@@ -86,6 +88,8 @@ def module_attr(ex, mod, attr, node):
   if mod in fmap:
     if attr in RECORD_CLASSES and RECORD_CLASSES[attr][0] == fmap[mod]:
       return VPy('recclass', attr)
+    if attr in OPAQUE_CLASSES:
+      return VPy('func', f'{fmap[mod]}::{attr}')
     if attr in ex.repo.module_functions(fmap[mod]):
       return VPy('func', f'{fmap[mod]}::{attr}')
     if attr.endswith('_RE'):
@@ -376,6 +380,8 @@ def call_builtin(ex, name, args, kwargs, node):
     if not args:
       return VPy('emptyset')
     v = args[0]
+    if isinstance(v, VObj):
+      return VObj(sym.ufun('val_to_set', sym.Val, sym.Val)(v.e))
     if isinstance(v, VList):
       ks = KSet(v.kind.elem)
       k = z3.Const('k!set', v.kind.elem.sort())
@@ -610,6 +616,13 @@ def _dict_method(ex, obj, name, args, kwargs, node):
       o = o.inner
     if isinstance(o, VDict):
       obj.update(o)
+      return NONE
+    if isinstance(o, VObj) and getattr(obj.kind, 'is_set', False) and obj.kind.key is KVal:
+      obj._mutate()
+      k = z3.Const('k!us', sym.Val)
+      mem = sym.ufun('val_contains', sym.Val, sym.Val, sym.BoolS)
+      obj.dom = z3.Lambda([k], z3.Or(obj.dom[k], mem(o.e, k)))
+      obj._wb()
       return NONE
   if name == 'copy':
     return obj.copy()
